@@ -237,6 +237,9 @@ class Verdict:
         with open(os.path.join(EVIDENCE, self.pid + ".json"), "w") as f:
             json.dump(ev, f, indent=1)
             f.write("\n")
+        if not os.environ.get("VERIF_REPLAYING"):     # replay files of an earlier run of this check are stale now
+            import glob
+            for old in glob.glob(os.path.join(BUILD, "replay", "%s-*.json" % self.pid)): os.remove(old)
         for k, (f, desc) in sorted(self.known_hit.items()):
             print("KNOWN-FINDING: property=%s %s" % (self.pid, f.get("what", k)))
         if self.violations:
